@@ -9,10 +9,11 @@ ID = "C08"
 HARNESSES = [dict(name="radius", pkg="./plugins/auth/radius/", test="TestVerifC08", timeout=900,
                   files=[("plugins/auth/radius/zz_verif_c08_test.go", "harness/C08/zz_verif_c08_test.go")])]
 MODEL_NEEDS_IMPL = True
-# model variants: "repaired" = every repair incl. the Event-Timestamp requirement (full theorems); "head" = what /repo
-# HEAD implements after the four committed C08 fixes (Event-Timestamp not yet required: one recorded known finding).
-# Regressions of a committed fix match neither and are VIOLATIONs.
-VARIANTS = ["repaired", "head"]
+# model variants: "repaired" = every repair (full theorems); "head" = /repo HEAD (the four committed fixes; neither the
+# Event-Timestamp requirement nor duplicate detection: two recorded known findings); "head_nots" / "head_nodedup" = HEAD with
+# exactly one of the two findings present, used to attribute a mismatch to ONE finding.  Regressions of committed fixes
+# match none of them and are VIOLATIONs.
+VARIANTS = ["repaired", "head_nots", "head_nodedup", "head"]
 RULE = ("reply: 1-3 sequential exchanges on one real radiusConn over loopback UDP (identifier and request authenticator "
         "forced, identifier often re-used between rounds; 30 % of non-final rounds are HELD, i.e. overlap with the next "
         "exchange, mostly on the same identifier); per round 1-5 datagrams from the classes genuine / genuine+MA / "
@@ -24,7 +25,8 @@ RULE = ("reply: 1-3 sequential exchanges on one real radiusConn over loopback UD
         "unconfigured loopback sources; request authenticator right / wrong key / zero / random, Message-Authenticator "
         "absent / RFC 5176 / as-transmitted / garbage / one bit flipped, request authenticator also with one bit flipped in any octet, Event-Timestamp absent / inside / at +-window / one past / far / zero, "
         "targets of all four kinds, mutable, stripped, non-whitelisted and vendor attributes, Proxy-State, length field "
-        "off by some octets, trailing octets (incl. a fake attribute 80), literal junk. auth: Provider.Authenticate "
+        "off by some octets, trailing octets (incl. a fake attribute 80), literal junk; in 45 % of the cases a byte-identical copy "
+        "of an earlier timestamped datagram of the case is re-sent later (replay, possibly from another address). auth: Provider.Authenticate "
         "against a server that answers the live request with scripted genuine/forged/flipped replies (decision by the Coq "
         "function authenticate_radius; the model prints the request it expects on the wire). corpus: defect witnesses, "
         "Go literal tables (lits) and one CoA per pkg/aaa attribute name. "
@@ -230,11 +232,11 @@ def client_for(clients, src):
     return None
 
 
-def gen_coa_packet(rng, clients, win, nasid):
+def gen_coa_packet(rng, clients, win, nasid, force_ts=False):
     known = [x for x in SOURCES if client_for(clients, x)]
-    src = rng.choice(known) if known and rng.random() < 0.85 else rng.choice(SOURCES)
+    src = rng.choice(known) if known and rng.random() < 0.93 else rng.choice(SOURCES)
     key = client_for(clients, src) or K1
-    code = rng.choice([43] * 20 + [40] * 17 + [41, 1, 99])
+    code = rng.choice([43] * 22 + [40] * 18 + [41, 1, 99])
     attrs = []
     # target
     good_t = [(44, b"sess-%d" % rng.randrange(50)), (8, bytes([10, 1, 2, rng.randrange(256)])), (1, b"alice"),
@@ -245,8 +247,10 @@ def gen_coa_packet(rng, clients, win, nasid):
         attrs.append(rng.choice(good_t * 3 + bad_t))
     if rng.random() < 0.4:
         attrs.append((32, rng.choice([nasid or b"bng1", nasid or b"bng1", nasid or b"bng1", b"other", b"", b"bng2", b"bng", b"bng12", b"Bng1"])))
-    ts = rng.choice([None, None, "TS+0", "TS+1", "TS-1", "TS-5", "TS+7", "TS-2", "TS-%d" % win, "TS-%d" % (win + 1), "TS+%d" % win,
+    ts = rng.choice([None, "TS+0", "TS+1", "TS-1", "TS+0", "TS-3", "TS+2", "TS-4", "TS+0", "TS-1", "TS-5", "TS+7", "TS-2", "TS-%d" % win, "TS-%d" % (win + 1), "TS+%d" % win,
                      "TS+%d" % (win + 1), "TS-100000", "TS+100000", bytes(4), b"\x00\x00\x01", "TS-%d" % max(win - 1, 0)])
+    if force_ts and not (isinstance(ts, str)):
+        ts = rng.choice(["TS+0", "TS-1", "TS+2", "TS-%d" % win, "TS+%d" % (win + 1), "TS-100000"])
     if ts is not None:
         attrs.append((55, ts))
     if code == 43 and rng.random() < 0.8:
@@ -271,13 +275,13 @@ def gen_coa_packet(rng, clients, win, nasid):
             ]))
     for _ in range(rng.choice([0, 0, 0, 1, 2])):
         attrs.append((33, bytes(rng.randrange(256) for _ in range(rng.randrange(0, 6)))))
-    mamode = rng.choice(["none"] * 8 + ["rfc", "rfc", "rfc", "asis", "asis", "asis", "lit", "rfcwrong", "asiswrong", "rfcflip", "asisflip"])
+    mamode = rng.choice(["none"] * 14 + ["rfc", "rfc", "rfc", "rfc", "rfc", "asis", "lit", "rfcwrong", "asiswrong", "rfcflip", "asisflip"])
     if mamode != "none":
         attrs.insert(rng.randrange(len(attrs) + 1), (80, "MA"))
         if rng.random() < 0.1:
             attrs.append((80, "MA"))
     rng.shuffle(attrs) if rng.random() < 0.3 else None
-    sign = rng.choice(["S:" + hx(key)] * 12 + ["X%d:%s" % (rng.randrange(16), hx(key)), "X%d:%s" % (rng.choice([0, 7, 8, 15]), hx(key)),"S:" + hx(key + b"x"), "Z", "L:" + hx(bytes(rng.randrange(256) for _ in range(16))),
+    sign = rng.choice(["S:" + hx(key)] * 26 + ["X%d:%s" % (rng.randrange(16), hx(key)), "X%d:%s" % (rng.choice([0, 7, 8, 15]), hx(key)),"S:" + hx(key + b"x"), "Z", "L:" + hx(bytes(rng.randrange(256) for _ in range(16))),
                                               "S:" + hx(K2 if key != K2 else K1)])
     ma = {"none": "none", "rfc": "rfc:" + hx(key), "asis": "asis:" + hx(key), "rfcwrong": "rfc:" + hx(key + b"z"),
           "asiswrong": "asis:" + hx(b"zz"), "rfcflip": "rfcflip%d:%s" % (rng.randrange(16), hx(key)),
@@ -301,7 +305,30 @@ def gen_coa(rng):
     cfg = "coa win=%d nasid=%s maps=%s clients=%s" % (win, hx(nasid), rng.choice(MAPSETS),
                                                       ",".join("%s/%s" % (h, hx(k)) for h, k in clients))
     n = rng.choice([1, 2, 3, 4])
-    pk = [gen_coa_packet(rng, clients, win, nasid) for _ in range(n)]
+    with_dup = rng.random() < 0.45
+    pk = [gen_coa_packet(rng, clients, win, nasid, force_ts=with_dup and win > 0) for _ in range(n)]
+    if with_dup and win > 0:
+        pk = [p for p in pk if " raw=" not in p]
+        while not pk:
+            p = gen_coa_packet(rng, clients, win, nasid, True)
+            if " raw=" not in p:
+                pk = [p]
+    # replays: byte-identical copies of earlier datagrams of the case (possibly from another address of the client net,
+    # possibly after other requests for the same target).  Only of packets that carry a usable Event-Timestamp when the
+    # window is enabled, so that the two recorded findings are never needed for one case at once.
+    if with_dup and pk:
+        for _ in range(1):
+            cand = [i for i, p in enumerate(pk) if " dup=" not in p and " raw=" not in p and (win <= 0 or ":TS" in p)]
+            if not cand:
+                break
+            k = rng.choice(cand)
+            src = re.search(r"src=(\S+)", pk[k]).group(1)
+            if rng.random() < 0.2:
+                src = rng.choice(SOURCES)
+            pk.insert(rng.randrange(k + 1, len(pk) + 1), "src=%s bus=%s dup=%d" % (src, rng.choice(["ok", "ok", "nf"]), k))
+            # indices of earlier dup references stay valid only if we insert after k; later dups refer to original indices
+            break
+    n = len(pk)
     return cfg + " %d " % n + " | ".join(pk) + " |"
 
 
@@ -424,34 +451,58 @@ def classify(case, impl, model):
     return "G", "unknown case kind"
 
 
+def _pkts(case):
+    t = case.split()
+    return [dict(x.split("=", 1) for x in p.split()) for p in " ".join(t[6:]).split("|") if p.strip()]
+
+
+def _usable_ts(kv, pk):
+    if "dup" in kv:
+        k = int(kv["dup"])
+        return _usable_ts(pk[k], pk) if k < len(pk) and "dup" not in pk[k] else None
+    if "raw" in kv:
+        return None
+    ts = [x.split(":", 1)[1] for x in kv.get("attrs", "-").split(",") if x.startswith("55:")]
+    return any(x.startswith("TS") or (len(x) == 8 and x != "00000000") for x in ts)
+
+
 def signature(case, impl, models):
-    """Only one finding is open: a CoA/Disconnect without usable Event-Timestamp executed while the window is
-    enabled.  The signature is returned only if the implementation's line equals the [head] model's line AND the
-    difference to [repaired] is exactly that: a packet whose recipe has no usable Event-Timestamp, window > 0,
-    executed (reply) by the implementation and dropped by [repaired]; every other packet agrees."""
-    if case.split(" ", 1)[0] != "coa" or models.get("head") != impl:
+    """Two findings are recorded.  A mismatch against [repaired] is attributed to ONE of them only if the implementation's
+    line equals the model with exactly that finding present and every differing packet has the input class of the finding:
+      coa-without-event-timestamp-bypasses-window: window > 0, recipe without usable Event-Timestamp, executed (reply) by the
+        implementation, dropped by [repaired];
+      coa-duplicate-request-reexecuted: a `dup=` packet (byte-identical copy of an earlier datagram of the case) that the
+        implementation handled again (statistics counted / event published) while [repaired] answers it from the cache.
+    Cases that need both findings at once are not generated; anything else is a VIOLATION."""
+    if case.split(" ", 1)[0] != "coa":
         return None
     rep = models.get("repaired", "")
-    t = case.split()
-    win = int(t[1].split("=", 1)[1])
-    pk = [p.strip() for p in " ".join(t[6:]).split("|") if p.strip()]
+    pk = _pkts(case)
+    win = int(case.split()[1].split("=", 1)[1])
     si, sr = _segs(impl), _segs(rep)
-    if win <= 0 or len(pk) != len(si) or len(si) != len(sr):
+    if len(pk) != len(si) or len(si) != len(sr):
         return None
-    hit = False
-    for p, a, b in zip(pk, si, sr):
-        if a == b:
-            continue
-        kv = dict(x.split("=", 1) for x in p.split())
-        ts_tokens = [x.split(":", 1)[1] for x in kv.get("attrs", "-").split(",") if x.startswith("55:")]
-        usable = [x for x in ts_tokens if x.startswith("TS") or (len(x) == 8 and x != "00000000")]
-        first_usable_is_first_4byte = bool(usable)
-        if "raw" in kv or first_usable_is_first_4byte:
+    if models.get("head_nots") == impl:
+        if win <= 0:
             return None
-        if _coa_proj(a)[0] != "reply" or _coa_proj(b)[0] != "drop":
-            return None
-        hit = True
-    return "coa-without-event-timestamp-bypasses-window" if hit else None
+        hit = False
+        for kv, a, b in zip(pk, si, sr):
+            if a == b:
+                continue
+            if _usable_ts(kv, pk) is not False or _coa_proj(a)[0] != "reply" or _coa_proj(b)[0] != "drop":
+                return None
+            hit = True
+        return "coa-without-event-timestamp-bypasses-window" if hit else None
+    if models.get("head_nodedup") == impl:
+        hit = False
+        for kv, a, b in zip(pk, si, sr):
+            if a == b:
+                continue
+            if "dup" not in kv or _tok(b, "st") != "none" or _tok(b, "ev") != "noev" or _tok(a, "st") == "none":
+                return None
+            hit = True
+        return "coa-duplicate-request-reexecuted" if hit else None
+    return None
 
 
 def nontrivial(case, out):
@@ -498,6 +549,7 @@ def distribution(cases, impl):
                 r = _tok(s, "reply")
                 if r:
                     codes[r[:2]] = codes.get(r[:2], 0) + 1
+            d["coa_duplicate_packets"] = d.get("coa_duplicate_packets", 0) + c.count(" dup=")
         elif k == "fail":
             d["failover_cases"] = d.get("failover_cases", 0) + 1
             d["failover_second_server_tried"] = d.get("failover_second_server_tried", 0) + ("s1:req=-" not in o)
@@ -549,9 +601,23 @@ def shrink(case):
 
         def emit(head, pk):
             return "coa " + " ".join(head) + " %d " % len(pk) + " | ".join(pk) + " |"
+        def drop(pk, i):
+            outp = []
+            for j, p in enumerate(pk):
+                if j == i:
+                    continue
+                m = re.search(r" dup=(\d+)", p)
+                if m:
+                    k = int(m.group(1))
+                    if k == i:
+                        continue
+                    if k > i:
+                        p = p.replace(" dup=%d" % k, " dup=%d" % (k - 1))
+                outp.append(p)
+            return outp
         if len(pk) > 1:
             for i in range(len(pk)):
-                yield emit(head, pk[:i] + pk[i + 1:])
+                yield emit(head, drop(pk, i))
         for i, p in enumerate(pk):
             kv = dict(x.split("=", 1) for x in p.split())
             if "attrs" in kv and kv["attrs"] != "-":
